@@ -343,6 +343,10 @@ def c01(tier):
         cols = C01_COLS[j % len(C01_COLS)]
         r = record_and_validate(rep, cols, 12, 5, 900 if thorough else 350, SEED * 1000 + j, label="c01t%d" % j)
         first = first or r
+    # index growth in the middle of the history, also nested (two generations queued): colliding keys
+    for j in range(3 if thorough else 1):
+        record_and_validate(rep, [{"kind": "hash", "uniform": True, "collide": True, "deep": True}], 80, 3,
+                            2000 if thorough else 700, SEED * 1009 + j, label="c01deep%d" % j, small=True)
     # the binding is sensitive: tampered copies of the first recorded trace must be rejected
     binding_selftest(rep, os.path.join(vcore.scratch(), "trace_c01t0.ndjson"), C01_COLS[0], 12, 5,
                      initrid=first["init_rid"], initcid=first["init_cid"])
@@ -660,9 +664,14 @@ def c07(tier):
     rep.assumptions = ["values of rc columns are a function of the key (preimage)"]
     vcore.build_harness()
     thorough = tier == "thorough"
-    kw = dict(kind="rr", nkeys=1, nvals=1, maxcalls=3 if thorough else 2, maxops=2, maxcrash=1, fine=True,
+    kw = dict(kind="rr", nkeys=1, nvals=1, maxcalls=2, maxops=2, maxcrash=1, fine=True,
               feat=("crash", "restart"), view="ViewNoTrace", invariants=CRASH_INV + ("LayerHandOver",))
-    run_model(rep, pdb_cfg(**kw), "MC_C07(rr,%d calls)" % kw["maxcalls"], timeout=3000)
+    run_model(rep, pdb_cfg(**kw), "MC_C07(rr,2 calls)", timeout=3000)
+    if thorough:
+        # (3 calls of 2 operations on two rc columns did not finish within 50 minutes: one more call with single
+        # operations on two columns, and 3 calls of 2 operations on one column)
+        run_model(rep, pdb_cfg(**dict(kw, maxcalls=3, maxops=1)), "MC_C07(rr,3 calls of 1 op)", timeout=3000)
+        run_model(rep, pdb_cfg(**dict(kw, kind="r", maxcalls=3, maxops=2)), "MC_C07(r,3 calls of 2 ops)", timeout=3000)
     kw1 = dict(kind="r", nkeys=2, nvals=1, maxcalls=3, maxops=2 if thorough else 1, fine=True, feat=("restart",),
                view="ViewLogical", invariants=("TypeOK", "ReadLatest", "DrainedIsAll"))
     run_model(rep, pdb_cfg(**kw1), "MC_C07(r,2 keys,3 calls)", timeout=3000)
